@@ -134,6 +134,15 @@ func c05SelfIface() interface{} {
 	return p
 }
 
+type c05MethPtr *c05Meth
+type c05Self *c05Self
+
+func c05SelfPtr() c05Self {
+	var p c05Self
+	p = c05Self(&p)
+	return p
+}
+
 type c05Str string
 type c05IntSlice []int
 type c05StrMap map[string]string
@@ -216,6 +225,8 @@ func c05Values() []namedVal {
 		{"named-int", c05Cents(-1234)}, {"named-float", c05Ratio(-2.25)},
 		{"re-slash", "/"}, {"re-mods-unclosed", "/sim"}, {"re-flag-only", "/i"}, {"re-full", "/^h.l+o$/ims"}, {"re-broken", "/(/u"}, {"fmt-verbs", "%d %s %v %[3]d %*d %!"},
 		{"intbig-1", math.MaxInt64 - 1}, {"intmin+1", math.MinInt64 + 1},
+		{"trail-backslash", "Y-m-d\\"}, {"backslash", "\\"}, {"date-letters", "D, d M Y H:i:s \\a\\t e T P U u v N S z t L o W c r B I O"}, {"trail-percent", "50%"}, {"trail-brace", "a{"},
+		{"self-ptr", c05SelfPtr()}, {"nil-callable", (func(io.Writer) error)(nil)}, {"named-ptr-meth", c05MethPtr(&c05Meth{V: 4})}, {"float32-huge", float32(1e21)},
 		{"chan", ch}, {"func", func() int { return 1 }}, {"deep", deep}, {"err", fmt.Errorf("an error value")}, {"struct-empty", struct{}{}},
 	}
 }
@@ -233,7 +244,7 @@ var c05Constructs = []string{
 	"{{ v + 1 }}", "{{ 1 - v }}", "{{ v * v }}", "{{ v / 2 }}", "{{ 2 / v }}", "{{ v % 3 }}", "{{ 3 % v }}", "{{ v ^ 2 }}", "{{ 2 ^ v }}", "{{ v ~ v }}", "{{ v == v }}", "{{ v != 1 }}", "{{ v < 1 }}", "{{ v >= w }}",
 	"{{ v in v }}", "{{ 1 in v }}", "{{ 'a' in v }}", "{{ v in [1, 'a'] }}", "{{ v in 'abc' }}", "{{ v not in w }}", "{{ v matches '/a/' }}", "{{ 'a' matches v }}", "{{ v starts with 'a' }}", "{{ 'a' ends with v }}", "{{ v and w }}", "{{ v or w }}",
 	"{{ v is defined }}", "{{ v.x is defined }}", "{{ v is empty }}", "{{ v is null }}", "{{ v is even }}", "{{ v is odd }}", "{{ v is iterable }}", "{{ v is divisible_by(2) }}", "{{ 4 is divisible_by(v) }}", "{{ v is same_as(v) }}", "{{ v is equalto(1) }}", "{{ v is starts_with('a') }}", "{{ v is matches('a') }}", "{{ v is nosuchtest }}",
-	"{{ max(v) }}", "{{ min(v, 1) }}", "{{ max(v, v) }}", "{{ range(v, 3) }}", "{{ range(0, v) }}", "{{ range(0, 3, v) }}", "{{ range(v) }}", "{{ length(v) }}", "{{ cycle(v, 1) }}", "{{ cycle([1, 2], v) }}", "{{ random(v) }}", "{{ date(v) }}", "{{ date(v, v) }}", "{{ dump(v) }}", "{{ merge(v, v) }}", "{{ merge(v, [1]) }}", "{{ json_encode(v) }}", "{{ constant(v) }}", "{{ include(v) }}", "{{ parent() }}", "{{ v() }}", "{{ v.x() }}", "{{ v.Val() }}", "{{ v.WithArg(1) }}",
+	"{{ max(v) }}", "{{ min(v, 1) }}", "{{ max(v, v) }}", "{{ range(v, 3) }}", "{{ range(0, v) }}", "{{ range(0, 3, v) }}", "{{ range(v) }}", "{{ length(v) }}", "{{ cycle(v, 1) }}", "{{ cycle([1, 2], v) }}", "{{ random(v) }}", "{{ date(v) }}", "{{ date(v, v) }}", "{{ dump(v) }}", "{{ merge(v, v) }}", "{{ merge(v, [1]) }}", "{{ json_encode(v) }}", "{{ constant(v) }}", "{{ include(v) }}", "{{ parent() }}", "{{ v() }}", "{{ v.x() }}", "{{ v.Val() }}", "{{ v.WithArg(1) }}", "{{ v.Ptr }}|{{ v.Val }}|{{ v.V }}", "{{ v.Ptr() }}",
 	"{% set q = v %}{{ q }}{% set v = 1 %}{{ v }}", "{% do v %}", "{% include v %}", "{% include v ignore missing %}", "{% include 'nope' ignore missing with v %}", "{% include 'canary_inc' with {'a': v} only %}", "{% extends v %}", "{% import v as z %}", "{% from v import z %}",
 	"{% apply upper %}{{ v }}{% endapply %}", "{% spaceless %}<a> {{ v }} </a>{% endspaceless %}", "{% macro mm(a, b = v) %}{{ a }}{{ b }}{% endmacro %}{{ mm(v) }}{{ mm() }}{{ mm(v, v, v) }}",
 	"{{ [v, v]|join(',') }}", "{{ {'k': v}|keys|join }}", "{{ {'k': v}.k }}", "{{ [v]|first }}", "{{ v|default(v)|upper|length }}", "{{ v|first|last|first }}", "{{ v|keys|sort|reverse|join('-') }}", "{{ v|merge(w)|sort|join }}", "{{ w|merge(v)|length }}", "{{ v|slice(1)|slice(-1)|length }}",
@@ -705,6 +716,7 @@ func c05Pathological() []string {
 		"{{ "+rep("(", 300)+"1"+rep(")", 300)+" }}",
 		"{{ "+rep("[", 200)+rep("]", 200)+" }}",
 		"{{ "+rep("-", 500)+"1 }}",
+		"{{ '2023-01-02'|date('Y-m-d\\ '|trim) }}", "{% set f = 'Y\\ '|trim %}{{ '2023-01-02'|date(f) }}{{ 'now'|date(f) }}", "{{ '%'|format(1) }}{{ 'a%'|format }}{{ '50\\ '|trim|format(1) }}",
 		"{{ "+rep("not ", 500)+"a }}",
 		"{{ a"+rep("|upper", 2000)+" }}",
 		"{{ a"+rep(".b", 2000)+" }}",
